@@ -94,19 +94,24 @@ func getFromCache[T any](cfg *Config, key string) (T, error) {
 	return v.(T), nil
 }
 
-func extractAndConvert[T any](m map[string]any, key string) (T, error) {
+func extractAndConvert[T any](m map[string]any, key string) (result T, err error) {
+	defer func() {
+		if r := recover(); r != nil {
+			// a value that cannot be decoded into T must not panic inside the memo's compute function
+			result, err = *new(T), ErrConfigFailure.Msg("key `%s` cannot be read as %T: %v", key, *new(T), r)
+		}
+	}()
 	// TODO: check env overrides.
 
 	paths := strings.Split(key, ".")
-	result := *new(T)
 	v, ok := extract(m, paths)
 	if !ok {
 		return result, ErrConfigFailure.Msg("key `%s` not found", key)
 	}
 
-	bytes, err := yaml.Marshal(v)
-	if err != nil {
-		return result, ErrConfigFailure.Msg("key `%s` failed conversion back to yaml %+v", key, err)
+	bytes, mErr := yaml.Marshal(v)
+	if mErr != nil {
+		return result, ErrConfigFailure.Msg("key `%s` failed conversion back to yaml %+v", key, mErr)
 	}
 
 	err = yaml.Unmarshal(bytes, &result)
